@@ -508,5 +508,97 @@ class BazelWheeldirStream(Stream):
         return fails
 
 
+class SameNameOtherContent(Stream):
+    """"a file with other content under the same name is replaced by a fresh download" - as a history inside one
+    process: several locations (an index and its mirror, a re-upload) advertise one file name with different
+    digests; they are asked one after the other over one wheel directory, which may already hold one of the contents.
+    Whatever was verified or downloaded for one of them must not be handed to the next"""
+    name = "same-name-other-content"
+    quick_n = 60
+    thorough_n = 3000
+    batch = 20
+
+    BUILDS = {"A": B.wheel_bytes("foo", "2.0", requires=["dep-a"], body="# build A\n"),
+              "B": B.wheel_bytes("foo", "2.0", requires=["dep-b"], body="# build B\n"),
+              "C": B.wheel_bytes("foo", "2.0", requires=["dep-c"], body="# build C\n")}
+
+    def setup(self):
+        self.tmp = tempfile.mkdtemp(prefix="rvc15s")
+
+    def teardown(self):
+        shutil.rmtree(getattr(self, "tmp", ""), ignore_errors=True)
+
+    def generate(self, rng):
+        return {"pre": rng.choice([None, "A", "A", "B"]), "asks": [rng.choice("ABC") for _ in range(rng.randint(2, 5))],
+                "with_hash": rng.random() < 0.9}
+
+    def impl(self, case):
+        from rv.core import digest
+        from req_compile.repos.pypi import PyPIRepository
+        from req_compile.utils import parse_requirement
+        d = os.path.join(self.tmp, digest(case))
+        wheeldir = os.path.join(d, "wheels")
+        os.makedirs(wheeldir, exist_ok=True)
+        fn = B.wheel_name("foo", "2.0")
+        if case["pre"]:
+            with open(os.path.join(wheeldir, fn), "wb") as f:
+                f.write(self.BUILDS[case["pre"]])
+        idx = {k: B.FakeIndex("http://%s.example/simple" % k.lower(), {"foo": {fn: data}}, with_hash=case["with_hash"]) for k, data in self.BUILDS.items()}
+        session = B.FakeSession(list(idx.values()))
+        steps = []
+        try:
+            for k in case["asks"]:
+                B.clear_page_cache()
+                repo = PyPIRepository("http://%s.example/simple" % k.lower(), wheeldir)
+                repo.session = session
+                before = ResolveStream._listing(wheeldir).get(fn)
+                idx[k].log.clear()
+                st = {"asked": k, "in_dir_before": before}
+                try:
+                    dist, cached = repo.get_dist(parse_requirement("foo"))
+                    st["reqs"] = sorted(str(q) for q in dist.reqs)
+                    st["hash"] = dist.hash
+                except Exception as ex:
+                    st["error"] = type(ex).__name__
+                st["downloaded"] = any("/files/" in u for u in idx[k].log)
+                st["in_dir_after"] = ResolveStream._listing(wheeldir).get(fn)
+                steps.append(st)
+        finally:
+            shutil.rmtree(d, ignore_errors=True)
+        return {"steps": steps}
+
+    def flags(self, case, r):
+        fl = ["pre:%s" % case["pre"]]
+        prev = case["pre"]
+        for k in case["asks"]:
+            fl.append("same-content-again" if k == prev else "other-content-under-the-name")
+            prev = k
+        return sorted(set(fl)) + (["no-advertised-digest"] if not case["with_hash"] else [])
+
+    def oracle(self, case, r):
+        fails = []
+        for i, st in enumerate(r["steps"]):
+            adv = hashlib.sha256(self.BUILDS[st["asked"]]).hexdigest()
+            if "error" in st:
+                fails.append(("C15/same-name-other-content-request-fails", st))
+                break
+            if not case["with_hash"]:
+                continue          # nothing advertised: nothing in the directory can be trusted, nothing to compare with
+            if st["in_dir_before"] != adv and not st["downloaded"]:
+                fails.append(("C15/reused-without-matching-digest", {"step": i, **st}))
+            if st["reqs"] != ["dep-" + st["asked"].lower()]:
+                fails.append(("C15/metadata-of-another-file-under-the-same-name", {"step": i, **st}))
+            if st["in_dir_after"] != adv:
+                fails.append(("C15/other-content-left-under-the-name", {"step": i, **st}))
+        return fails[:2]
+
+    def shrink(self, case):
+        for i in range(len(case["asks"])):
+            if len(case["asks"]) > 1:
+                yield dict(case, asks=case["asks"][:i] + case["asks"][i + 1:])
+        if case["pre"]:
+            yield dict(case, pre=None)
+
+
 def streams():
-    return [ResolveStream(), RetryAfterFault(), PageStream(), CliExitStream(), BazelWheeldirStream()]
+    return [ResolveStream(), RetryAfterFault(), PageStream(), CliExitStream(), BazelWheeldirStream(), SameNameOtherContent()]
